@@ -1205,10 +1205,11 @@ class Realised:
         self.created_in: dict[int, int] = {}  # abstract id -> callback nesting depth at creation
         self.extras = 0
         self.style = ""
+        self.dims = "concrete"  # how the model inputs were declared
         self.unobservable: Optional[str] = None  # set when a spox internal could not be read
 
 
-def realise(prog, rng: random.Random, style: str = "lazy", twins: bool = False) -> Realised:
+def realise(prog, rng: random.Random, style: str = "lazy", twins: bool = False, dims: str = "concrete") -> Realised:
     """Construct `prog` with spox.  `style` controls *how the program is written in Python*:
 
     lazy            every value is created on first demand (inside whichever callback needs it first,
@@ -1221,6 +1222,9 @@ def realise(prog, rng: random.Random, style: str = "lazy", twins: bool = False) 
                     value is ==-equal but serialises differently (-0.0 / 0.0, np.int64(2) / np.float32(2))
     *-extras        additionally constructs unrequested operators on existing values at random points
                     (in the main program and inside callbacks)
+    dims            how the model inputs are DECLARED: "concrete" (every dimension a number), "symbolic"
+                    (a seeded part of the dimensions a name, e.g. ('d3', 2): known rank, sizes by name) or
+                    "unknown" (… `None`): the property's premise is a known RANK only
     """
     import importlib
 
@@ -1242,6 +1246,7 @@ def realise(prog, rng: random.Random, style: str = "lazy", twins: bool = False) 
     dep = formal_deps(prog)
     R = Realised()
     R.style = style
+    R.dims = dims
     extras = style.endswith("-extras")
     base = style.replace("-extras", "")
     depth = [0]
@@ -1286,7 +1291,11 @@ def realise(prog, rng: random.Random, style: str = "lazy", twins: bool = False) 
             if n["attrs"].get("role") != "main":
                 raise HarnessError(f"formal {k} demanded outside its body (generator bug)")
             t = n["ty"][0]
-            register(k, [argument(Tensor(DT[t[0]], shape_of(t)))])
+            shp = shape_of(t)
+            if dims != "concrete" and not n["attrs"].get("range") == "trip":
+                drng = random.Random(f"{k}:{dims}:{len(nodes)}")
+                shp = tuple((f"d{d_}" if dims == "symbolic" else None) if drng.random() < 0.6 else d_ for d_ in shp)
+            register(k, [argument(Tensor(DT[t[0]], shp))])
             return
         order = [j for j, r in enumerate(n["ins"]) if r is not None]
         if base != "eager":
@@ -2508,3 +2517,172 @@ def partial_programs() -> Iterator[tuple[dict, str]]:
                     out = iff(c, plus_p((x, 0)), (x, 0))
                 yield ({"nodes": nodes, "outputs": [list(out)], "opset": 17},
                        f"{shape}{'/closed-table' if table_closed else ''}{'/index-chain' if chain else ''}")
+
+
+# ------------------------------------------------- round 6: which model inputs are read, and where
+def used_args(prog) -> list[int]:
+    """Main arguments the requested outputs depend on — through node inputs AND through bodies at any
+    nesting depth (independent of the Lean `usedArgs`; compared with it on every drop-build)."""
+    seen = reachable(prog)
+    return [a for a in main_args(prog) if a in seen]
+
+
+def input_read_depths(model) -> dict[str, list[int]]:
+    """From the ModelProto alone: for every main-graph input name the sorted nesting depths (0 = main
+    graph) of the graphs that hold a node reading it."""
+    names = {i.name for i in model.graph.input}
+    out: dict[str, set] = {nm: set() for nm in names}
+    stack = [(model.graph, 0)]
+    while stack:
+        g, d = stack.pop()
+        for e in g.node:
+            for nm in e.input:
+                if nm in out:
+                    out[nm].add(d)
+            for a in e.attribute:
+                if a.type == 5:
+                    stack.append((a.g, d + 1))
+                elif a.type == 10:
+                    stack.extend((h, d + 1) for h in a.graphs)
+        for o in g.output:
+            if o.name in out and g is not model.graph:
+                out[o.name].add(d)
+    return {nm: sorted(ds) for nm, ds in out.items()}
+
+
+SK5_KINDS = ("If", "Loop", "Scan")
+SK5_GADGETS = ("read", "via", "result", "cond", "trip", "state", "scanin")
+SK5_FIXED_SHAPES = (("Loop", "If", "If"), ("Loop", "Loop", "Loop"), ("If", "Scan", "If"), ("Scan", "If", "Loop"))
+
+
+def skeleton5_programs(rng: random.Random, thorough: bool = False) -> Iterator[tuple[dict, str]]:
+    """Family aimed at *where a model input is read* (non-default build options x closure depth): a
+    three-level nest of control-flow bodies, each level an If / Loop / Scan (27 shapes), carries a vector
+    through depths 0..3; one dedicated model input `u` is read in exactly the depths of a chosen set —
+    as an operand (`read`), through a shared closed value `-u` (`via`), as a body *result* passed through
+    (`result`), as an If condition (`cond`), a Loop trip count (`trip`), a Loop state initialiser (`state`)
+    or a Scan input (`scanin`) — while several other declared inputs (`z`, `zb`, the controls of level
+    kinds the shape does not contain, `q` unless the gadget is `result`) are read nowhere.
+    Quick: 4 fixed + 2 seeded shapes x 7 gadgets x (4 single depths + 2 seeded larger sets);
+    thorough: all 27 shapes x 7 x (4 singles + 4 seeded larger sets).  Yields (prog, tag)."""
+    shapes = list(itertools.product(SK5_KINDS, repeat=3))
+    if not thorough:
+        rest = [s for s in shapes if s not in SK5_FIXED_SHAPES]
+        shapes = list(SK5_FIXED_SHAPES) + rng.sample(rest, 2)
+    singles = [(d,) for d in range(4)]
+    larger = [c for r in (2, 3, 4) for c in itertools.combinations(range(4), r)]
+    for shape in shapes:
+        for gadget in SK5_GADGETS:
+            for ds in singles + rng.sample(larger, 4 if thorough else 2):
+                yield _skeleton5(shape, gadget, set(ds)), f"{'>'.join(shape)}:{gadget}@{'+'.join(map(str, ds))}"
+
+
+def _skeleton5(shape, gadget: str, depths: set) -> dict:
+    nodes: list[dict] = []
+
+    def add(op, ins=(), subs=(), attrs=None, tys=()):
+        nodes.append({"op": op, "ins": [list(r) if r else None for r in ins], "subs": list(subs), "attrs": dict(attrs or {}), "ty": [list(t) for t in tys]})
+        return len(nodes) - 1
+
+    V, S, B_, M = ty("i64", [N]), ty("i64", []), ty("bool", []), ty("i64", [2, N])
+    x = add("arg", attrs={"role": "main"}, tys=[V])
+    z = add("arg", attrs={"role": "main"}, tys=[V])  # declared, read nowhere  # noqa: F841
+    zb = add("arg", attrs={"role": "main"}, tys=[B_])  # declared, read nowhere  # noqa: F841
+    c = add("arg", attrs={"role": "main"}, tys=[B_])  # condition of the nest's If levels
+    n = add("arg", attrs={"role": "main", "range": "trip"}, tys=[S])  # trip count of the nest's Loop levels
+    xs = add("arg", attrs={"role": "main"}, tys=[M])  # scan input of the nest's Scan levels
+    q = add("arg", attrs={"role": "main"}, tys=[B_])  # only the `result` gadget reads it
+    u_ty = {"cond": B_, "trip": S, "scanin": M}.get(gadget, V)
+    u = add("arg", attrs={"role": "main", **({"range": "trip"} if gadget == "trip" else {})}, tys=[u_ty])
+    nu = [None]
+
+    def iff(cond, t, e):
+        return (add("If", [cond], [{"args": [], "res": [list(t)]}, {"args": [], "res": [list(e)]}], tys=[V]), 0)
+
+    def loop(m, init, body_of):
+        it = add("arg", attrs={"role": "formal"}, tys=[ty("i64", [], True)])
+        cn = add("arg", attrs={"role": "formal"}, tys=[ty("bool", [], True)])
+        a = add("arg", attrs={"role": "formal"}, tys=[V])
+        res = body_of((a, 0))
+        return (add("Loop", [m, None, init], [{"args": [it, cn, a], "res": [[cn, 0], list(res)]}], tys=[V]), 0)
+
+    def scan(init, seq, body_of):
+        st = add("arg", attrs={"role": "formal"}, tys=[V])
+        sl = add("arg", attrs={"role": "formal"}, tys=[V])
+        res = body_of((add("Add", [(st, 0), (sl, 0)], tys=[V]), 0))
+        return (add("Scan", [init, seq], [{"args": [st, sl], "res": [list(res)]}], attrs={"num_scan_inputs": 1}, tys=[V]), 0)
+
+    def apply(acc):
+        if gadget == "read":
+            return (add("Add", [acc, (u, 0)], tys=[V]), 0)
+        if gadget == "via":
+            if nu[0] is None:
+                nu[0] = add("Neg", [(u, 0)], tys=[V])
+            return (add("Add", [acc, (nu[0], 0)], tys=[V]), 0)
+        if gadget == "result":
+            return iff((q, 0), acc, (u, 0))
+        if gadget == "cond":
+            return iff((u, 0), (add("Neg", [acc], tys=[V]), 0), acc)
+        if gadget == "trip":
+            return loop((u, 0), acc, lambda a: (add("Neg", [a], tys=[V]), 0))
+        if gadget == "state":
+            two = add("Constant", attrs={"value": [2], "scalar": True, "uid": 50 + len(nodes), "layout": "C"}, tys=[S])
+            return loop((two, 0), (u, 0), lambda a: (add("Add", [a, acc], tys=[V]), 0))
+        return scan(acc, (u, 0), lambda a: a)
+
+    def level(i, acc):
+        """Everything at nesting depth i (0 = main graph) that happens to the carried vector."""
+        if i in depths:
+            acc = apply(acc)
+        if i == len(shape):
+            return acc
+        kind = shape[i]
+        if kind == "If":
+            return iff((c, 0), level(i + 1, acc), acc)
+        if kind == "Loop":
+            return loop((n, 0), acc, lambda a: level(i + 1, a))
+        return scan(acc, (xs, 0), lambda a: level(i + 1, a))
+
+    out = level(0, (x, 0))
+    return {"nodes": nodes, "outputs": [list(out)], "opset": 17}
+
+
+def no_input_programs() -> Iterator[tuple[dict, str]]:
+    """Programs whose requested outputs read NO model input (constants only: at depth 0, inside an If whose
+    condition is a constant, inside a Loop with a constant trip count) while inputs are declared — with
+    `drop_unused_inputs=True` the model has no inputs at all.  Yields (prog, tag)."""
+    V, S, B_ = ty("i64", [N]), ty("i64", []), ty("bool", [])
+    for shape in ("main", "if", "loop", "if-loop"):
+        nodes: list[dict] = []
+
+        def add(op, ins=(), subs=(), attrs=None, tys=()):
+            nodes.append({"op": op, "ins": [list(r) if r else None for r in ins], "subs": list(subs), "attrs": dict(attrs or {}), "ty": [list(t) for t in tys]})
+            return len(nodes) - 1
+
+        add("arg", attrs={"role": "main"}, tys=[V])
+        add("arg", attrs={"role": "main"}, tys=[B_])
+        a = add("Constant", attrs={"value": [1, -2, 3], "uid": 1, "layout": "C"}, tys=[V])
+        b = add("Constant", attrs={"value": [4, 0, -1], "uid": 2, "layout": "C"}, tys=[V])
+        s = (add("Add", [(a, 0), (b, 0)], tys=[V]), 0)
+
+        def iff(t, e):
+            cnd = add("Constant", attrs={"value": [True], "scalar": True, "uid": 3, "layout": "C"}, tys=[B_])
+            return (add("If", [(cnd, 0)], [{"args": [], "res": [list(t)]}, {"args": [], "res": [list(e)]}], tys=[V]), 0)
+
+        def loop(init):
+            two = add("Constant", attrs={"value": [2], "scalar": True, "uid": 4, "layout": "C"}, tys=[S])
+            it = add("arg", attrs={"role": "formal"}, tys=[ty("i64", [], True)])
+            cn = add("arg", attrs={"role": "formal"}, tys=[ty("bool", [], True)])
+            ac = add("arg", attrs={"role": "formal"}, tys=[V])
+            r = add("Add", [(ac, 0), (b, 0)], tys=[V])
+            return (add("Loop", [(two, 0), None, init], [{"args": [it, cn, ac], "res": [[cn, 0], [r, 0]]}], tys=[V]), 0)
+
+        if shape == "main":
+            out = s
+        elif shape == "if":
+            out = iff(s, (a, 0))
+        elif shape == "loop":
+            out = loop(s)
+        else:
+            out = iff(loop(s), (b, 0))
+        yield {"nodes": nodes, "outputs": [list(out)], "opset": 17}, shape
